@@ -1,19 +1,53 @@
 import Exetera.Props.C12
 import Exetera.Model.KernelSitesJoin
+import Exetera.Model.KernelSitesNotModelled
 import Exetera.Gen.KernelShape
+import Exetera.Props.C10.Basic
+import Exetera.Props.C10.MapValid
+import Exetera.Props.C10.Spans
+import Exetera.Props.C10.FilterIndex
+import Exetera.Props.C10.Unique
+import Exetera.Props.C10.Concat
+import Exetera.Props.C10.Journal
+import Exetera.Props.C10.Transforms
+import Exetera.Props.C10.Csv
+import Exetera.Props.C10.JoinFlat
+import Exetera.Props.C10.GroupBy
 /-!
-# C10 — compiled kernels never touch memory outside their arrays (join kernels part)
+# C10 — compiled kernels never touch memory outside their arrays
 
-Every array subscript of a modelled kernel goes through a checked accessor (`getE`, `push`), which yields
-`.error (.oob site)` when out of range. So each `… = .ok …` refinement theorem is a memory-safety theorem for the model's
-accesses; `access_sites_covered_join` ties the model's access set to the source's.
+Every array subscript of a modelled kernel goes through a checked accessor (`getE`, `setE`, a capacity check on a buffer that
+is filled front to back), which yields `.error (.oob site)` when out of range. So each `… = .ok …` refinement theorem of the
+owning property is a memory-safety theorem for the model's accesses. This property adds, per kernel family
+(`Props/C10/<Family>.lean`, all in namespace `Exetera.Props.C10`):
+
+* `no_oob_<kernel>`: for every input the owning theorem calls valid (its hypotheses repeated verbatim), every chunk / buffer
+  size it allows and every `site`, the model run is not `.error (.oob site)` — a corollary of the owning theorem;
+* `access_sites_covered_<family>`: the loop guards and subscripts of the family's kernels, regenerated from the CURRENT
+  source into `Gen/KernelShape.lean`, are exactly the ones the model was written against (`Model/KernelSites<Family>.lean`,
+  whose doc comment maps every source subscript to the model accessor that stands for it) — a dropped guard conjunct or a
+  new subscript in the source breaks the build instead of going unmodelled;
+* buffer statements that hold for ALL arguments: `push_oob_iff` / `pushV_oob_iff` / `setE_oob_iff` (a write is refused
+  exactly when the position is not below the buffer size), `indexed_partial_buffers_bounded`,
+  `concat_kernel_buffers_bounded` (no normally returning call leaves more elements in a result buffer than it has slots);
+* `kernel_inventory_complete`: every compiled kernel of the current source is in a site table or in the explicit
+  not-modelled list.
+
+This file: the streamed join kernels (owning properties C03 / C12) and the inventory.
+
+Families and owners: join (C03/C12, here), MapValid (C04), Spans (C08), FilterIndex (C09), Unique (C14), Concat (C16),
+Journal (C17), Transforms (C06), Csv (C05), JoinFlat (C19), GroupBy (C07).
+
+Differential only (listed where they belong): kernels without a model (`KernelSites.notModelled`); the buffer-full /
+regrowth runs of the CSV reader
+(`Props/C10/Csv.lean`); indexed `unique` on columns with trailing NULs (`no_oob_unique_partial`); subscripts the models do
+not check (`Model/KernelSitesTransforms.lean` GAPS, `Model/KernelSitesMapValid.lean` `safe_map_indexed_values` result arrays).
+`if` tests that guard a subscript are not part of the regenerated shapes (only loop guards are): their removal is caught by
+the correspondence (the model has the branch), not by `access_sites_covered_*`.
 What no model exhibits: the effect of an actual stray write on the heap.
 -/
 namespace Exetera.Props.C10
 open Exetera Exetera.Join Exetera.Spec
-
-def lookup (name : String) : Option (String × List String × List String) :=
-  Gen.kernelShape.find? (fun k => k.1 == name)
 
 /-- the loop guards and subscripts of the modelled join kernels, as regenerated from the current source, are exactly the
     ones the model was written against -/
@@ -40,5 +74,19 @@ theorem push_oob_iff (cap : Nat) (s : K) (a b : Int) (site : String) :
     · intro _; exact ⟨_, rfl⟩
 
 example : KernelSites.joinSites.length = 10 := by decide
+
+/-- all site tables: the compiled kernels that have a model -/
+def modelledSites : List (String × List String × List String) :=
+  KernelSites.joinSites ++ KernelSites.mapValidSites ++ KernelSites.spansSites ++ KernelSites.filterIndexSites ++
+  KernelSites.uniqueSites ++ KernelSites.concatSites ++ KernelSites.journalSites ++ KernelSites.transformsSites ++
+  KernelSites.csvSites ++ KernelSites.joinFlatSites ++ KernelSites.groupBySites
+
+/-- every compiled kernel found in the current source is modelled (has a site table entry, hence an
+    `access_sites_covered_*` obligation) or is in the explicit not-modelled list; and no table names a kernel twice -/
+theorem kernel_inventory_complete :
+    (∀ k ∈ Gen.kernelShape, k.1 ∈ modelledSites.map (·.1) ∨ k.1 ∈ KernelSites.notModelled) ∧
+    (modelledSites.map (·.1) ++ KernelSites.notModelled).Nodup := by decide +kernel
+
+example : modelledSites.length = 64 ∧ KernelSites.notModelled.length = 5 ∧ Gen.kernelShape.length = 69 := by decide +kernel
 
 end Exetera.Props.C10
